@@ -244,14 +244,23 @@ def run_sets(ctx, cell):
             "[length(remove(s + [], x)) for x in list(s)], [x in t for x in probes], "
             "[m2[x, 'missing'] for x in probes], "
             "[length(<<s, t>>), s in <<t>>, <<s>> == <<t>>, put(<<<>>>, s, 1)[t, 'missing'], length(<<m, m2>>), "
-            "m in <<m2>>, put(<<<>>>, m, 1)[m2, 'missing'], [s] == [t], find([t], s)]]")
+            "m in <<m2>>, put(<<<>>>, m, 1)[m2, 'missing'], [s] == [t], find([t], s)], "
+            "[x in l for x in probes], [find(l, x) >= 0 for x in probes], [x is in l for x in probes], "
+            "[not (x not in l) for x in probes]]")
+    env["l"] = vlist(els)
     env["probes"] = vlist(p)
     out = run_ckl(text, env)
     if out.kind != "ok":
         ctx.fail("%s:%s:%s" % (key, out.kind, out.hostname() or "runtime-error"),
                  lambda: {"elements": [str(e) for e in els], "exc": str(out.exc)})
         return out
-    st, strst, ln, mm, strmm, member, lookup, items, rem, member2, lookup2, nested = out.value.value
+    st, strst, ln, mm, strmm, member, lookup, items, rem, member2, lookup2, nested, lmem, lfind, lisin, lnotin = out.value.value
+    # membership in a LIST holding the same elements agrees with set membership for every representative
+    for pi, probe in enumerate(p):
+        expect = any(probe == e for e in els)
+        for got, form in ((lmem, "in"), (lfind, "find")):       # (the other spellings of `in`: C02 member cells)
+            ctx.check(tv(got.value[pi]) == expect, key + ":list-membership-depends-on-representative[%s]" % form,
+                      lambda: {"elements": [str(e) for e in els], "probe": str(probe)})
     # equal containers are interchangeable as elements / keys themselves
     ctx.check(str(nested) == "[1, TRUE, TRUE, 1, 1, TRUE, 1, TRUE, 0]", key + ":equal-containers-not-interchangeable-when-nested",
               lambda: {"elements": [str(e) for e in els], "got": str(nested)})
